@@ -1,12 +1,14 @@
 package checks
 
 import (
+	"context"
 	"encoding/json"
 	"fmt"
 	"github.com/gebn/bmc"
 	"github.com/gebn/bmc/pkg/ipmi"
 	"reflect"
 	"strings"
+	"time"
 
 	"verif/env"
 	"verif/ref"
@@ -25,6 +27,12 @@ func init() {
 		New: func() ipmi.Command {
 			return &rawCmd{op: ipmi.Operation{Function: ipmi.NetworkFunctionGroupReq, Body: ipmi.BodyCode(0x00), Command: 0x01}, body: []byte{0x00}}
 		}})
+	Replayers["c11none"] = func(raw json.RawMessage) (string, bool) {
+		var c c11NoneCase
+		json.Unmarshal(raw, &c)
+		k, msg := c11None(c)
+		return k + " " + msg, k != ""
+	}
 	Replayers["c11long"] = func(raw json.RawMessage) (string, bool) {
 		var c c11LongCase
 		json.Unmarshal(raw, &c)
@@ -320,6 +328,87 @@ func c11Cause(o *histObs, pos int) string {
 	return "none"
 }
 
+// c11NoneCase: a call made with a context that is already over (cancelled, or
+// its deadline in the past), after Warm undisturbed commands. Whatever the
+// library does with such a context, a nil error must stand for a response the
+// BMC sent to that very command.
+type c11NoneCase struct {
+	InSession bool   `json:"in_session"`
+	Call      string `json:"call"`
+	Cancelled bool   `json:"cancelled"` // else: deadline in the past
+	Warm      int    `json:"warm"`
+}
+
+var c11NoneCalls = []string{"GetDeviceID", "GetSystemGUID", "GetChassisStatus", "ChassisControl", "SetSessionPrivilegeLevel", "Close"}
+
+func c11None(c c11NoneCase) (string, string) {
+	cfg := histConfig(ref.Suite{Auth: 1, Integ: 1, Conf: 1})
+	w := newWorld(cfg, nil, nil)
+	var conn bmc.Connection = w.Conn
+	var sess *bmc.V2Session
+	if c.InSession {
+		s, err := w.Conn.NewV2Session(w.Ctx, &bmc.V2SessionOpts{SessionOpts: bmc.SessionOpts{Username: "c11", Password: cfg.Password, MaxPrivilegeLevel: ipmi.PrivilegeLevelAdministrator}, CipherSuites: []ipmi.CipherSuite{ipmi.CipherSuite3}})
+		if err != nil {
+			return "C11/none/harness", err.Error()
+		}
+		conn, sess = s, s
+	}
+	for i := 0; i < c.Warm; i++ {
+		conn.SendCommand(w.Ctx, &ipmi.GetDeviceIDCmd{})
+	}
+	var ctx context.Context
+	var cancel context.CancelFunc
+	if c.Cancelled {
+		ctx, cancel = context.WithCancel(w.Ctx)
+		cancel()
+	} else {
+		ctx, cancel = context.WithDeadline(w.Ctx, time.Now().Add(-time.Second))
+		defer cancel()
+	}
+	before := len(w.T.Log)
+	var err error
+	var code ipmi.CompletionCode
+	p := guard(func() {
+		switch c.Call {
+		case "Close":
+			if sess != nil {
+				err = sess.Close(ctx)
+			} else {
+				err = w.Conn.Close()
+			}
+		case "ChassisControl":
+			code, err = conn.SendCommand(ctx, &ipmi.ChassisControlCmd{Req: ipmi.ChassisControlReq{ChassisControl: ipmi.ChassisControlPowerCycle}})
+		case "SetSessionPrivilegeLevel":
+			code, err = conn.SendCommand(ctx, &ipmi.SetSessionPrivilegeLevelCmd{Req: ipmi.SetSessionPrivilegeLevelReq{PrivilegeLevel: ipmi.PrivilegeLevelUser}})
+		case "GetSystemGUID":
+			code, err = conn.SendCommand(ctx, &ipmi.GetSystemGUIDCmd{})
+		case "GetChassisStatus":
+			code, err = conn.SendCommand(ctx, &ipmi.GetChassisStatusCmd{})
+		default:
+			code, err = conn.SendCommand(ctx, &ipmi.GetDeviceIDCmd{})
+		}
+	})
+	if p != "" {
+		return "C11/none/panic/" + siteKey(p), fmt.Sprintf("%+v: %s", c, p)
+	}
+	if c.Call == "Close" && sess == nil {
+		return "", "" // closing the socket involves no response
+	}
+	if err != nil {
+		return "", ""
+	}
+	delivered := 0
+	for _, ex := range w.T.Log[before:] {
+		if ex.Rx != nil && ex.Returned != nil {
+			delivered++
+		}
+	}
+	if delivered == 0 {
+		return "C11/none/result-without-any-response/" + c.Call, fmt.Sprintf("%+v: the call returned (%#02x, nil) although %d datagrams were transmitted and no response was delivered to the library", c, byte(code), len(w.T.Log)-before)
+	}
+	return "", ""
+}
+
 func runC11(r *rep.R) {
 	r.SetRule("a case is one execution of a history [A, B, C] of pairwise distinct commands (all ordered pairs A,B over an 8-command alphabet, C fixed per pair) outside and inside a session, with <= k socket events from {reply delayed past the timeout, reply duplicated, reply held until after the next reply (reordering), a stray valid reply of another command ahead of the real one, reply lost}; oracle: every nil-error result equals the BMC's answer to that command (taken from an undisturbed run of the same history)")
 	alphabet := []int{opGetDeviceID, opChassisStatus, opGetSDR, opSetPriv, opPowerReading, opSensorReading, opSystemGUID, opAuthCaps, opDCMISensorInfoCmd, opDCMICapsCmd, opChassisControl, opPICMG}
@@ -408,6 +497,28 @@ func runC11(r *rep.R) {
 					r.Violate(k, msg, "c11long", c, nil)
 				} else {
 					r.Outcome("long:results-from-own-replies")
+				}
+			}
+		}
+	}
+	for _, inSess := range []bool{false, true} {
+		for _, call := range c11NoneCalls {
+			for _, cancelled := range []bool{false, true} {
+				for _, warm := range []int{0, 1, 3} {
+					idx++
+					if !r.Mine(idx) {
+						continue
+					}
+					c := c11NoneCase{InSession: inSess, Call: call, Cancelled: cancelled, Warm: warm}
+					k, msg := c11None(c)
+					r.Eval(rep.H("none", fmt.Sprint(c)), true)
+					r.Trace()
+					if k != "" {
+						r.Outcome("violation")
+						r.Violate(k, msg, "c11none", c, nil)
+					} else {
+						r.Outcome("context-already-over:no-result-without-a-response")
+					}
 				}
 			}
 		}
